@@ -284,6 +284,8 @@ class FaultTap:
         self.k = k
         self.mode = mode
         self.n = 0
+        self.wc = 0                 # writing commits completed so far
+        self.wc_fired = None        # ... when the fault fired
         self.fired_at: str | None = None
         self._dirty = False
         event.listen(self.session, "before_commit", self._before_commit)
@@ -293,7 +295,7 @@ class FaultTap:
 
     def _fire(self, where: str):
         self.fired_at = where
-        self.n_fired = self.n
+        self.wc_fired = self.wc
         raise OperationalError("injected transient failure", None, Exception("injected"))
 
     def _cursor(self, conn, cursor, statement, parameters, context, executemany):
@@ -314,6 +316,8 @@ class FaultTap:
                 self._fire(f"commit#{self.k}")
 
     def _after_commit(self, session):
+        if self._dirty:
+            self.wc += 1
         self._dirty = False
 
     def _after_rollback(self, session):
@@ -402,6 +406,7 @@ class OpTap:
             self.depth += 1
             n0 = len(self.tap.dumps)
             c0 = self.tap.n
+            fired_before = self.fault is not None and self.fault.fired_at is not None
             err = None
             out = None
             crashed = False
@@ -421,10 +426,9 @@ class OpTap:
                     if crashed:
                         ev["crashed"] = True
                     ft = self.fault
-                    if ft is not None and ft.fired_at is not None and not getattr(ft, "accounted", False):
-                        ft.accounted = True
-                        # writing commits this operation completed before the failing one
-                        ev["fault_j"] = (ft.n_fired - 1) - c0
+                    if ft is not None and ft.fired_at is not None and not fired_before:
+                        # writing commits this operation completed before the injected failure
+                        ev["fault_j"] = ft.wc_fired - c0
                 except Exception as e:  # noqa: BLE001
                     self.events.append(dict(req=None, kind="harness-error", expect=repr(e), name=name))
             if err is not None:
@@ -791,7 +795,9 @@ class Case:
     def adopt(self, r, path):
         """continue on a copy of a durable snapshot: the model is told to go back to that state with `load`"""
         self.repos[r] = path
-        self.events.append(dict(req=f"(load i{r} {dump_to_sx(dump_db(path, self.I))})", kind="ack", name="load"))
+        d = dump_db(path, self.I)
+        self.clock = max(self.clock, len(d["nodes"]) + 1)      # later call nodes are newer than every loaded one
+        self.events.append(dict(req=f"(load i{r} {dump_to_sx(d)})", kind="ack", name="load"))
 
     def transfer(self, src, dst, roots=None, twice=False):
         """records reachable from `roots` (default: all executions) of `src` -> `dst`, by the code path of
@@ -875,7 +881,7 @@ def compare_case(ctx, case: Case, evs, replies, tables=REC_TABLES):
                 bad += 1
             continue
         if kind == "write":
-            if ev.get("err") == "!IntegrityError" and unrepaired and not rep.startswith("!"):
+            if ev.get("err") in ("!IntegrityError", "!AttributeError") and unrepaired and not rep.startswith("!"):
                 # the unrepaired recording code left a Task value without Task row behind (C22): sqlite refuses
                 # the next row that references it; the model has no FK enforcement.  Nothing to compare after that.
                 ctx.count("model_comparison", "stopped-at-IntegrityError-of-unrepaired-code")
